@@ -98,6 +98,8 @@ def op_roundtrip(pkg, op):
     mod = importlib.import_module(pkg + ".models")
     cls = getattr(mod, op["cls"])
     data = unjson(op["data"])
+    import copy as _copy
+    pristine = _copy.deepcopy(data)
     res = {}
     try:
         obj = cls.from_dict(data)
@@ -105,6 +107,13 @@ def op_roundtrip(pkg, op):
         res["dec_exc"] = exc_info(e)
         return res
     res["obj"] = ser(obj)
+    # from_dict is a function of its argument: the caller's payload is left alone and decoding it again gives an equal object
+    res["input_mutated"] = (data != pristine)
+    try:
+        res["decode_twice_equal"] = (cls.from_dict(data) == obj)
+    except BaseException as e:  # noqa
+        res["decode_twice_equal"] = False
+    data = pristine
     try:
         out = obj.to_dict()
         res["out"] = jsonable(out)
